@@ -577,3 +577,5 @@ M('size-aspect-inverted', ['C17'], UT, "                        if aspect != 'x'
 M('box-fields-shifted', ['C17'], UT, "                        xform.x      = float(x)\n                        xform.y      = float(y)", "                        xform.x      = float(y)\n                        xform.y      = float(x)", ['C17.R6'])
 M('hist-fix-branch-off-by-two', ['C16'], BR, "                                    if len(bucket_counts) > len(explicit_bounds) + 1:\n                                        bucket_counts = bucket_counts[:len(explicit_bounds) + 1]", "                                    if len(bucket_counts) > len(explicit_bounds) - 1:\n                                        bucket_counts = bucket_counts[:len(explicit_bounds) + 1]", ['C16.R4'])
 M('hist-fix-branches-swapped', ['C16'], BR, "                                    if len(bucket_counts) > len(explicit_bounds) + 1:\n                                        bucket_counts = bucket_counts[:len(explicit_bounds) + 1]", "                                    if len(bucket_counts) < len(explicit_bounds) + 1:\n                                        bucket_counts = bucket_counts[:len(explicit_bounds) + 1]", ['C16.R4'])
+M('head-written-without-json', ['C14'], RL, "f.write(json_dumps(pos) + '\\n')", "f.write(str(pos) + '\\n')", ['C14.R8'])
+M('head-read-first-line-only', ['C14'], RL, "pos = json_loads(f.read().strip())", "pos = json_loads(f.readline()[:-2])", ['C14.R8'])
